@@ -218,7 +218,8 @@ structure CopyDesc where
   bufs : List BufAct          -- one per buffer slot
   views : List (ViewAct × Nat) -- per internal pointer: action and the buffer slot it points into
   refs : List RefAct          -- one per reference slot
-  refsFirst : Bool            -- deep copies happen before the buffers are duplicated (only matters for which allocation fails)
+  refsFirst : Bool            -- deep copies happen before the buffers are duplicated: only decides which model step an injected
+                              -- failure hits — no observable consequence, not compared with the code
   capAware : Bool             -- the kind records the allocated size next to the pointer and honours it (`array_t.count`)
   onFail : FailAct
   deriving DecidableEq, Repr
